@@ -221,12 +221,12 @@ func runOps(ep *endpoints, ops []string, startIdx int) []string {
 		switch {
 		case op[0] == 'R':
 			buf := make([]byte, arg(op[1:]))
-			ep.uw.SetReadDeadline(time.Now().Add(250 * time.Millisecond))
+			ep.uw.SetReadDeadline(time.Now().Add(80 * time.Millisecond))
 			t0 := time.Now()
 			n, err := ep.uut.Read(buf)
 			ep.uw.SetReadDeadline(time.Time{})
 			e := errEnum(err)
-			if (e == "timeout" || e == "other") && time.Since(t0) > 200*time.Millisecond {
+			if (e == "timeout" || e == "other") && time.Since(t0) > 60*time.Millisecond {
 				e = "block"
 			} else if e == "timeout" {
 				ep.pe.FailPeerRead(nil) // the scripted temporary error has been reported; the transport recovers
@@ -545,7 +545,7 @@ func emitEarly(side string, j int, ln int) {
 	go func() { defer wg.Done(); e1 = ep.uut.Handshake() }()
 	go func() {
 		defer wg.Done()
-		ep.pe.SetReadDeadline(time.Now().Add(3 * time.Second))
+		ep.pe.SetReadDeadline(time.Now().Add(400 * time.Millisecond))
 		ep.peer.Handshake()
 	}()
 	wg.Wait()
